@@ -209,6 +209,14 @@ func execC12Decode(in c12Input) *vstat.Outcome {
 	streams = append(streams, stream{"br", fmt.Sprintf("brotli q%d", bl), refBrotli(data, bl)})
 	streams = append(streams, stream{"snz", "snappy block", refSnappy(data)})
 	streams = append(streams, stream{"zst", fmt.Sprintf("zstd level %d", zl), refZstd(data, zl)})
+	// streams made of several members / frames are valid streams of their formats
+	if cut := in.Size / 3; true {
+		a, b, c := data[:cut], data[cut:2*cut], data[2*cut:]
+		multi := append(append(append([]byte{}, refGzip(a, gl)...), refGzip(b, 1)...), refGzip(c, 9)...)
+		streams = append(streams, stream{"gzip", "three concatenated gzip members", multi})
+		zmulti := append(append([]byte{}, refZstd(a, 1)...), refZstd(append(append([]byte{}, b...), c...), zl)...)
+		streams = append(streams, stream{"zst", "two concatenated zstd frames", zmulti})
+	}
 	if len(data) > 0 {
 		streams = append(streams, stream{"lz4", "literal-only block", refLZ4Literal(data)})
 		streams = append(streams, stream{"lz4", "independent greedy encoder", refLZ4Greedy(data)})
